@@ -641,6 +641,26 @@ int main(int argc, char** argv)
         }
     };
     auto rep = sh.run();
+    // (5) sizes: many placeholders, long arguments (beyond the short-string optimisation and small buffers), long literal text
+    for (size_t k : { 17u, 33u, 65u, 257u })
+        for (const std::string& sep : std::vector<std::string>{ "", "-", std::string(300, 'x') })
+            for (size_t len : { 1u, 16u, 300u })
+                for (int delta : { -1, 0, 1 })
+                {
+                    std::string f;
+                    for (size_t i = 0; i < k; i++)
+                        f += (i ? sep : std::string()) + "{}";
+                    std::vector<std::string> args;
+                    for (size_t i = 0; i < k + delta; i++)
+                        args.push_back(std::string(len, static_cast<char>('a' + i % 26)) + (i % 5 == 0 ? "{}" : ""));
+                    std::vector<Fail> fl;
+                    long ex = 0;
+                    check_format(f, args, fl, ex);
+                    rep.count("executions", ex);
+                    rep.count("large_cases");
+                    for (auto& x : fl)
+                        rep.violation(x.clause, "C08:" + x.clause + ":large", mc::J().s("format", f).l("args", args).str(), x.detail.substr(0, 400), 0);
+                }
     rep.counters["bound_history_len"] = HD;
     rep.counters["bound_format_len"] = L;
     rep.counters["formats"] = formats.size();
